@@ -20,11 +20,33 @@ def parseRelayStage (s : String) : Option Timeouts.RelayStage :=
   match s with
   | "connect" => some .connect | "tlsimmediate" => some .tlsImmediate | "banner" => some .banner | "ehlo" => some .ehlo
   | "helo" => some .helo | "starttls" => some .starttls | "auth" => some .auth | "mail" => some .mail | "rcpt" => some .rcpt
-  | "data" => some .data | "senddata" => some .sendData | "rset" => some .rset | "quit" => some .quit | "close" => some .close | _ => none
+  | "data" => some .data | "senddata" => some .sendData | "rset" => some .rset | "quit" => some .quit | "close" => some .close | "idlereply" => some .idleReply | _ => none
+
+def showScope : Timeouts.Scope → String
+  | .command => "command" | .data => "data" | .connect => "connect" | .single => "single" | .unscoped => "unscoped"
+
+def serverStageName : Timeouts.ServerStage → String
+  | .tlsImmediate => "tlsImmediate" | .command => "command" | .data => "data" | .authResponse => "authResponse"
+  | .starttlsHandshake => "starttlsHandshake" | .close => "close"
+
+def relayStageName : Timeouts.RelayStage → String
+  | .connect => "connect" | .tlsImmediate => "tlsImmediate" | .banner => "banner" | .ehlo => "ehlo" | .helo => "helo"
+  | .starttls => "starttls" | .auth => "auth" | .mail => "mail" | .rcpt => "rcpt" | .data => "data" | .sendData => "sendData"
+  | .rset => "rset" | .quit => "quit" | .close => "close" | .idleReply => "idleReply"
+
+def sortStrings (l : List String) : List String := (l.toArray.qsort (· < ·)).toList
+
+/-- The model's scope table, in the format of harness/scopes.py. -/
+def scopeTable : String :=
+  let srv := sortStrings (Timeouts.allServerStages.map fun st => serverStageName st ++ "=" ++ showScope (Timeouts.serverScope st))
+  let rel := sortStrings (Timeouts.allRelayStages.map fun st => relayStageName st ++ "=" ++ showScope (Timeouts.relayScope st))
+  "server " ++ " ".intercalate srv ++ " | relay " ++ " ".intercalate rel ++
+  " | pipe exec=" ++ showScope (Timeouts.otherScope .pipeExec) ++ " | http request=" ++ showScope (Timeouts.otherScope .httpRequest)
 
 /-- `timeouts server|relay <command> <data> <connect> <single> <stage:gaps;stage:gaps;...>` -/
 def timeoutsOp (args : List String) : String :=
   match args with
+  | ["table"] => scopeTable
   | [who, c, d, cn, sg, steps] =>
     match c.toNat?, d.toNat?, cn.toNat?, sg.toNat? with
     | some c, some d, some cn, some sg =>
